@@ -717,10 +717,9 @@ fn read_from_file<R: Read>(reader: &mut R, num_bytes_to_read: usize) -> Rc<Objec
                 for byte in buf_slice.iter().take(bytes_read) {
                     result_bytes.push(Rc::new(Object::Byte(*byte)));
                 }
-                // Got fewer bytes than requested, so we're done
-                if bytes_read < read_len {
-                    break;
-                }
+                // A short read is not the end of the input (a buffered reader
+                // hands out what is left in its buffer, a pipe what has arrived
+                // so far): keep reading until the count is reached or EOF
                 total_bytes_read += bytes_read;
             }
             Err(e) => {
